@@ -67,8 +67,9 @@ structure World where
   sess : Sess
   pendingSaved : Bool        -- `cache.saved_objects` is not empty (a flush stopped after it had saved something)
   modified : Bool            -- `cache.modified` (set by create / assignment / delete, reset only by a flush that succeeded)
+  forUpdate : List ObjId     -- `cache.for_update`: objects created by this cache since its last commit (no optimistic check)
 
-def World.init : World := ⟨[], [], false, false, Sess.empty, false, false⟩
+def World.init : World := ⟨[], [], false, false, Sess.empty, false, false, []⟩
 
 inductive WErr
   | sess (e : Err)            -- raised by the session call itself (CacheIndexError, …)
@@ -85,6 +86,11 @@ deriving DecidableEq, Repr
 
 /-- the row an object is written as (`None` and never-loaded columns are not sent / NULL) -/
 def objRow (ob : Obj) (pk : KeyVal) : DbRow := { pk := pk, vals := fun a => (ob.vals a).key }
+
+/-- the optimistic criteria of `_save_updated_` (`_construct_optimistic_criteria_`): every column the session has READ still
+    has the value the session knows from the database (`IS NULL` for None) -/
+def optimisticOk (sch : Schema) (ob : Obj) (old : DbRow) : Bool :=
+  (List.range sch.nattrs).all fun a => !ob.rbits a || decide ((ob.dbvals a).key = old.vals a)
 
 /-- the row after `UPDATE … SET <written columns>` -/
 def updRow (ob : Obj) (old : DbRow) : DbRow :=
@@ -126,6 +132,10 @@ def flushObj (sch : Schema) (w : World) (o : ObjId) (ids : List Int) : FRes :=
             match getRow w.txn k with
             | none => ⟨{ w with inTxn := true, immediate := true }, some .optimistic, ids, false⟩
             | some old =>
+                -- `WHERE pk AND <optimistic criteria>` matched no row: OptimisticCheckError (not for objects in `cache.for_update`)
+                if !w.forUpdate.contains o && !optimisticOk sch ob old then
+                  ⟨{ w with inTxn := true, immediate := true }, some .optimistic, ids, false⟩
+                else
                 match dbUpdate sch w.txn (updRow ob old) with
                 | none => ⟨{ w with inTxn := true, immediate := true }, some .integrity, ids, false⟩
                 | some t' => ⟨{ w with txn := t', inTxn := true, immediate := true, sess := (saveUpdated w.sess o).1 }, none, ids, true⟩
@@ -165,13 +175,13 @@ def flushOne (sch : Schema) (w : World) (o : ObjId) (ids : List Int) : World × 
 /-- `rollback()`: the transaction is rolled back and the cache closed; the next call starts with an empty session -/
 def rollback (w : World) : World :=
   { committed := w.committed, txn := w.committed, inTxn := false, immediate := false, sess := Sess.empty, pendingSaved := false,
-    modified := false }
+    modified := false, forUpdate := [] }
 
 /-- `commit()`: flush; any exception -> rollback and re-raise; else COMMIT -/
 def commit (sch : Schema) (w : World) (ids : List Int) : World × Option WErr :=
   match flush sch w ids with
   | (w', some e) => (rollback w', some e)
-  | (w', none) => ({ w' with committed := w'.txn, inTxn := false, immediate := true }, none)
+  | (w', none) => ({ w' with committed := w'.txn, inTxn := false, immediate := true, forUpdate := [] }, none)   -- `cache.for_update.clear()`
 
 /-- `E[pk]` / `E.get(pk)`: the cache first; else (BEGIN IMMEDIATE when `immediate`), flush, SELECT -/
 def fetch (sch : Schema) (w : World) (cls : Nat) (pk : KeyVal) (ids : List Int) : World × Option WErr :=
@@ -190,12 +200,24 @@ def fetch (sch : Schema) (w : World) (cls : Nat) (pk : KeyVal) (ids : List Int) 
               | (s3, { err := some e, .. }) => ({ w2 with sess := s3 }, some (.sess e))
               | (s3, _) => ({ w2 with sess := s3 }, none)
 
-/-- an INSERT through a second connection (autocommit) -/
-def ext (sch : Schema) (w : World) (r : DbRow) : World × Option WErr :=
+/-- a statement of the second connection (autocommit) -/
+inductive ExtStmt
+  | insert (r : DbRow)
+  | update (pk : KeyVal) (a : Nat) (v : Option Int)
+  | delete (pk : KeyVal)
+
+def ext (sch : Schema) (w : World) (st : ExtStmt) : World × Option WErr :=
   if w.inTxn then (w, some .locked)
-  else match dbInsert sch w.committed r with
-    | none => (w, some .extIntegrity)
-    | some t' => ({ w with committed := t', txn := t' }, none)
+  else match st with
+    | .insert r => match dbInsert sch w.committed r with
+        | none => (w, some .extIntegrity)
+        | some t' => ({ w with committed := t', txn := t' }, none)
+    | .update pk a v => match getRow w.committed pk with
+        | none => (w, none)                                   -- UPDATE of no row
+        | some old => match dbUpdate sch w.committed { pk := old.pk, vals := fun a' => if a' = a then v else old.vals a' } with
+            | none => (w, some .extIntegrity)
+            | some t' => ({ w with committed := t', txn := t' }, none)
+    | .delete pk => ({ w with committed := dbDelete w.committed pk, txn := dbDelete w.committed pk }, none)
 
 inductive WOp
   | sess (op : Op)             -- create / setAttrs / delete / read (the engine sends only these)
@@ -204,7 +226,7 @@ inductive WOp
   | flushOne (o : ObjId) (ids : List Int)
   | commit (ids : List Int)
   | rollback
-  | ext (r : DbRow)
+  | ext (st : ExtStmt)
 
 /-- session calls allowed in a C14 history (the `_save_*_` transitions and row loads happen only inside flush / fetch) -/
 def sessOpOk : Op → Bool
@@ -223,14 +245,17 @@ def stepW (sch : Schema) (w : World) : WOp → World × Option WErr
   | .sess op =>
       if sessOpOk op then
         let (s', r) := stepR sch w.sess op
-        ({ w with sess := s', modified := w.modified || (r.err.isNone && marksModified w.sess op) }, r.err.map .sess)
+        ({ w with sess := s', modified := w.modified || (r.err.isNone && marksModified w.sess op),
+                  forUpdate := match op, r.yield with
+                    | .create .., some x => x :: w.forUpdate          -- `cache.for_update.add(obj)` in the identity map
+                    | _, _ => w.forUpdate }, r.err.map .sess)
       else (w, some .badOp)
   | .fetch c pk ids => fetch sch w c pk ids
   | .flush ids => flush sch w ids
   | .flushOne o ids => flushOne sch w o ids
   | .commit ids => commit sch w ids
   | .rollback => (rollback w, none)
-  | .ext r => ext sch w r
+  | .ext st => ext sch w st
 
 def runW (sch : Schema) (w : World) : List WOp → World
   | [] => w
